@@ -41,6 +41,9 @@ ATOMS = [b"", b"a", b'"', b"\\", b"\r", b"\n", b"{", b"}", b"(", b")", b"[", b"]
 
 LONG = [b"a" * 1000, b"a" * 1001, b'"' * 1000, b'"' * 1001, b"a" * 999 + b'"', b" " * 1001, b"(" * 1001,
         b"a" * 1000 + b"\n", b"{5}" + b"a" * 998, b'a"' * 500 + b")"]
+# literal sizes on both sides of every change in the number of digits of the {n} header (round-10 miss C42-m):
+# strings holding a line break are sent as literals at any size, others above 1000 bytes
+LONG += [b"\n" * n for n in (9, 10, 99, 100, 999, 1000)] + [b"a" * n for n in (9999, 10000, 99999, 100000, 999999, 1000000)]
 # the biggest forests use the atoms that matter for nesting / tokenising; the dropped ones ([ ] TAB FF * % NUL)
 # are covered up to 3 nodes here and exhaustively as bytes in families A and B
 ATOMS_BIG = [a for a in ATOMS if a not in (b"[", b"]", b"\t", b"\x0c", b"*", b"%", b"\x00")]
